@@ -338,6 +338,16 @@ NoCloserVictimP(E, E2, r) ==
            /\ \A k \in E1 \ {r.ev} : Bucket(k) < Bucket(r.ev) => cnt(Bucket(k)) <= cmin
            /\ r.added = (r.ev # r.key)
 
+\* the victim comes from a NON-PROTECTED bucket (one holding more than the per-bucket minimum, counting the entry
+\* being put) whenever such a bucket exists; only when every bucket is within its minimum may a protected one pay
+VictimUnprotectedP(E, E2, r) ==
+    (r.op \in {"put", "touch"} /\ r.hasEv) =>
+        LET E1 == (DOMAIN E) \cup {r.key}
+            cnt(i) == Cardinality({k \in E1 : Bucket(k) = i})
+        IN r.ev \in E1 =>
+             \/ cnt(Bucket(r.ev)) > cmin
+             \/ \A k \in E1 : cnt(Bucket(k)) <= cmin
+
 ReportedVictimGoneP(E, E2, r) ==
     (r.op \in {"put", "touch"} /\ r.hasEv) => r.ev \notin DOMAIN E2
 
@@ -397,6 +407,7 @@ StepLaws ==
     /\ OnlyAddsKeyP(ents, ents', last')
     /\ UnrelatedUntouchedP(ents, ents', last')
     /\ NoCloserVictimP(ents, ents', last')
+    /\ VictimUnprotectedP(ents, ents', last')
     /\ ReportedVictimGoneP(ents, ents', last')
     /\ EvictOnlyWhenFullP(ents, ents', last')
     /\ ExpireExactP(ents, ents', last')
